@@ -2,10 +2,12 @@ package wworld
 
 import (
 	"encoding/hex"
+	"errors"
 	"fmt"
 	"math/rand"
 	"os"
 
+	"verifharness/inproc"
 	"verifharness/lnmodel"
 
 	"github.com/elnosh/gonuts/cashu"
@@ -606,4 +608,49 @@ func (s *WSim) RandomOp(cfg Cfg) {
 func (wn *WalletNode) guardAddMint(url string) (ok bool, err error) {
 	err = wn.guard(func() error { _, e := wn.W.AddMint(url); return e })
 	return err == nil, err
+}
+
+// DirectedDropped: requests that never reach the mint because the connection breaks first — the swap of
+// a locked send and a melt request. The mint is as honest as ever and has seen nothing, so afterwards the
+// wallet must hold what it held before (spendable or pending, and reconcilable), and the same operation
+// must go through when it is tried again.
+func (s *WSim) DirectedDropped() {
+	if len(s.W.Wallets) < 2 {
+		return
+	}
+	a, b := s.W.Wallets[0], s.W.Wallets[1]
+	if a.W == nil || b.W == nil {
+		return
+	}
+	url := a.DefaultURL
+	m := s.W.MintByURL(url)
+	if m == nil || s.OpFund(a, 200, url) != nil {
+		return
+	}
+	drop := func(path string) func() {
+		done := false
+		s.W.T.SetHooks(m.Host, &inproc.HostHooks{Before: func(rec *inproc.Record) error {
+			if !done && rec.Method == "POST" && rec.Path == path {
+				done = true
+				s.logf("(the connection breaks before POST %s reaches the mint)", path)
+				return errors.New("read: connection reset by peer (injected before the request reached the mint)")
+			}
+			return nil
+		}})
+		return func() { s.W.T.SetHooks(m.Host, nil) }
+	}
+	undo := drop("/v1/swap")
+	s.OpSendP2PKFlag(a, b, 13, url, false, false)
+	undo()
+	if ht, err := s.OpSendP2PKFlag(a, b, 13, url, false, false); err == nil && ht != nil {
+		s.OpReceive(b, ht, false)
+	}
+	undo = drop("/v1/melt/bolt11")
+	rec, _ := s.OpMelt(a, 20, url, lnmodel.PayPlan{Answer: lnmodel.ASucceeded})
+	undo()
+	if rec != nil {
+		s.OpCheckMelt(rec) // the mint knows of no melt: the wallet takes its proofs back
+		s.OpMeltAgain(rec) // and the quote can still be paid
+		s.OpCheckMelt(rec)
+	}
 }
